@@ -121,10 +121,12 @@ def main():
                       'proved part (Properties_C08.v): the monitor is complete and sound for ALL runs; and, for the statement fragment '
                       '(C08_frame_discipline_partial), the code of the model leaves mem[1] and all protected words unchanged and changes memory only in the '
                       "procedure's temporaries, its outgoing area, the free stack below its frame and the words of variables in scope, between statement boundaries; "
-                      'and across a call of a procedure or function with value formals and var locals that hide no global (C08_call_discipline_partial) control returns to the '
+                      'and across a call of a procedure or function with value and array formals and var locals that hide no global (C08_call_discipline_partial) control returns to the '
                       'link address with mem[1] restored (prologue/epilogue balance, nested and recursive calls included), protected words unchanged, the '
                       "caller's locals, formals and everything above its frame untouched, the stack never below the budget XSem's depth bound implies; "
-                      'NOT proved: the per-access clauses for every program (decided here per run by the proved monitor), calls inside operands, array/proc formals, the entry/exit stub']
+                      'global arrays are covered: their cells (above the stack) count as words of variables in scope, everything else above the caller\'s frame stays untouched; '
+                      'array formals are covered (the actual is the address of the cells; elements assigned through an array formal are cells of a global array); '
+                      'NOT proved: the per-access clauses for every program (decided here per run by the proved monitor), calls inside operands, proc/func formals and local arrays']
     if os.path.exists(os.path.join(vlib.COQ, 'Properties_%s.v' % PID)):
         ok = ck.proofs()
         ck.log('proofs', 'ok' if ok else 'BROKEN')
